@@ -233,3 +233,12 @@ pub fn full_names(contract: &str) -> Vec<String> {
 pub fn top_level_count() -> usize {
     CONTRACTS.iter().map(|c| tables(c).0.len()).sum()
 }
+
+/// object selectors of a variant whose designated sender depends on a stored object it names (the matrix
+/// has one cell per selector); empty for every other variant
+pub fn objects(contract: &str, variant: &str) -> &'static [&'static str] {
+    match (contract, variant) {
+        ("incentive", "CloseFlow") => &super::hub::FLOW_SELECTORS,
+        _ => &[],
+    }
+}
